@@ -328,6 +328,28 @@ func c14Probes(t *rapid.T, s c14Spec) []string {
 		f.Mod(f, new(big.Int).Add(w, one))
 		add(new(big.Int).Add(lo, f))
 	}
+	// cross-family probes: the IPv4 address whose 4 bytes equal the low 32 bits of a border (and +-1),
+	// and for IPv4 specs the IPv6 address 2001:db8::<same 4 bytes>: a membership test that looks at a
+	// suffix or prefix of the 16-byte form only is wrong exactly there
+	low32 := new(big.Int).SetUint64(0xffffffff)
+	for _, b := range []*big.Int{lo, hi} {
+		tail := new(big.Int).And(b, low32)
+		for _, d := range []int64{-1, 0, 1} {
+			tv := new(big.Int).Add(tail, big.NewInt(d))
+			if tv.Sign() < 0 || tv.Cmp(low32) > 0 {
+				continue
+			}
+			if s.Fam == 6 {
+				add(new(big.Int).Add(mappedBase, tv))
+			} else {
+				add(new(big.Int).Add(addrBig(netip.MustParseAddr("2001:db8::")), tv))
+				add(tv) // ::a.b.c.d (IPv4-compatible form, not mapped)
+			}
+		}
+	}
+	if s.Fam == 6 {
+		add(new(big.Int).Add(mappedBase, new(big.Int).SetUint64(uint64(rapid.Uint32().Draw(t, "v4probe")))))
+	}
 	// exterior / random
 	for i := 0; i < 3; i++ {
 		var b [16]byte
@@ -408,6 +430,9 @@ func runC14(c c14Case, st *hx.Stats) error {
 		}
 		if near {
 			st.Label("probe within 1 of a border")
+		}
+		if isV4 := v.Cmp(mappedBase) >= 0 && v.Cmp(new(big.Int).Add(mappedBase, big.NewInt(1<<32-1))) <= 0; isV4 != (s.Fam == 4) {
+			st.Label("probe of the other address family")
 		}
 		if err := c14Contains(r, v, s, "probe"); err != nil {
 			return err
